@@ -31,7 +31,7 @@ CONTRACT_MODULES = {
     "C12": ["contracts.c12"],
     "C04": ["contracts.c12"] + _RT + _TF,
     "C02": _RT + _OV + _IN + _TF, "C16": _RT + _TF + ["contracts.tags"], "C01": _RT + _TF + ["contracts.tags"], "C06": _TF,
-    "C03": _OV + _IN, "C07": _OV + _IN, "C11": _IN + _OV + _TF + ["contracts.tags"] + _SP, "C05": _OV + _LC, "C09": _OV, "C17": _OV + _LC, "C10": _OV + _LC + _TF + _SP, "C14": _LC + ["contracts.refs"], "C18": _LC + _SP + ["contracts.refs"], "C15": _SP, "C13": _SP + ["contracts.c12", "contracts.refs"],
+    "C03": _OV + _IN + ["contracts.lemmas"], "C07": _OV + _IN + ["contracts.lemmas"], "C11": _IN + _OV + _TF + ["contracts.tags"] + _SP, "C05": _OV + _LC, "C09": _OV, "C17": _OV + _LC, "C10": _OV + _LC + _TF + _SP, "C14": _LC + ["contracts.refs"], "C18": _LC + _SP + ["contracts.refs"], "C15": _SP, "C13": _SP + ["contracts.c12", "contracts.refs"],
 }
 
 UNIT_WALL_BUDGET = {"quick": 150, "thorough": 600}
@@ -194,7 +194,7 @@ def main(argv):
             if o["status"] == "discharged":
                 if tier == "thorough":
                     smt = r["smt2"].get(o["name"] + "@" + (o["path"] or ""))
-                    if smt and cvc5_checked < 400:
+                    if smt and cvc5_checked < 400 and o["goal"] not in ("true", "True"):
                         cvc5_checked += 1
                         cr = cvc5_check(smt)
                         if cr == "sat":
